@@ -60,8 +60,11 @@ pub struct CallInfo<'a> {
     pub total_in: usize,
     pub total_out: usize,
     pub out_so_far: &'a [u8],
-    pub buf: &'a [u8],
+    /// the caller-owned output buffer (mutable so that a hook can emulate 'a new buffer holding only
+    /// the last 32 KiB')
+    pub buf: &'a mut [u8],
     pub out_pos_after: usize,
+    pub flat: bool,
 }
 
 pub struct DriveOpts<'a> {
@@ -80,7 +83,7 @@ pub struct DriveOpts<'a> {
 
 /// Drive `decompress_with_limit` over `data` with a schedule. Checks the per-call invariants
 /// common to C03/C05/C07/C08; `hook` sees the decoder after every call.
-pub fn drive(r: &mut DecompressorOxide, data: &[u8], o: &DriveOpts, mut hook: impl FnMut(&mut DecompressorOxide, &CallInfo) -> Result<(), Violation>) -> Result<DecRun, Violation> {
+pub fn drive(r: &mut DecompressorOxide, data: &[u8], o: &DriveOpts, mut hook: impl FnMut(&mut DecompressorOxide, &mut CallInfo) -> Result<(), Violation>) -> Result<DecRun, Violation> {
     let (mut buf, mut out_pos, flat, extra) = match o.mode {
         BufMode::Flat { cap } => {
             let mut b = ring_fill(0, 1);
@@ -159,8 +162,8 @@ pub fn drive(r: &mut DecompressorOxide, data: &[u8], o: &DriveOpts, mut hook: im
         out_pos += w;
         out_bound_extra += w as u64;
         {
-            let info = CallInfo { status: st, consumed: c, written: w, total_in: pos, total_out: out.len(), out_so_far: &out, buf: &buf, out_pos_after: out_pos };
-            hook(r, &info)?;
+            let mut info = CallInfo { status: st, consumed: c, written: w, total_in: pos, total_out: out.len(), out_so_far: &out, buf: &mut buf, out_pos_after: out_pos, flat };
+            hook(r, &mut info)?;
         }
         let state = r.verif_state();
         if st == TINFLStatus::BlockBoundary {
@@ -211,7 +214,7 @@ pub fn drive(r: &mut DecompressorOxide, data: &[u8], o: &DriveOpts, mut hook: im
     }
 }
 
-pub fn plain_hook(_: &mut DecompressorOxide, _: &CallInfo) -> Result<(), Violation> {
+pub fn plain_hook(_: &mut DecompressorOxide, _: &mut CallInfo) -> Result<(), Violation> {
     Ok(())
 }
 
